@@ -27,7 +27,7 @@ def repo_import(rel):
 
 
 def real_callable(qual):
-    rel, name = qual.split(":")
+    rel, name = qual.split("#")[0].split(":")
     obj = repo_import(rel)
     for part in name.split("."):
         obj = getattr(obj, part)
@@ -245,8 +245,23 @@ def default_gen(c, rng, n, size=4):
         yield {p: gen_value(t, rng, size) for p, t in tys}
 
 
+def regenerate(c, rseed, index, budget=100000):
+    """the index-th input the generator produces from seed rseed (replay of generator-made real objects)"""
+    rng = random.Random(rseed)
+    gen = c.gen(rng, budget) if c.gen else default_gen(c, rng, budget, 4)
+    for k, argmap in enumerate(gen):
+        if k == index:
+            return to_real(argmap)
+    raise ValueError("generator exhausted before index %d" % index)
+
+
+LAST_INDEX = [None]
+
+
 def search_violation(c, rng, budget=3000, size=4):
     """Random small-scope search for an input that satisfies requires and violates ensures natively."""
+    if isinstance(rng, int):
+        rng = random.Random(rng)
     env = native_env()
     gen = c.gen(rng, budget) if c.gen else default_gen(c, rng, budget, size)
     tried = 0
@@ -260,6 +275,7 @@ def search_violation(c, rng, budget=3000, size=4):
         if o.pre_ok:
             valid += 1
             if o.failed:
+                LAST_INDEX[0] = tried - 1
                 return argmap, o, tried, valid
         if tried >= budget:
             break
